@@ -5,7 +5,7 @@ from spec import idt as SI
 from ..bits import BV, TOP, lit, b_not
 from ..interp import State, Unsupported
 from ..values import UNIT, Array, Enum, Opaque, Ptr, Ref, Struct
-from .common import (U8, adt, arg_obj, bv, enum_val, eval_bv, eval_value, fn_site, inner, same, sl, _env_of, admits)
+from .common import (asm_not_pure, U8, adt, arg_obj, bv, enum_val, eval_bv, eval_value, fn_site, inner, same, sl, _env_of, admits)
 
 LEVEL = 'proof'
 IDT = 'structures::idt::InterruptDescriptorTable'
@@ -35,6 +35,7 @@ def run(chk):
     chk.guard('entry', 'entry encoding', lambda: entry(chk))
     chk.guard('options', 'option setters', lambda: options(chk))
     chk.guard('table', 'new/reset/pointer/load', lambda: table(chk, idt_lay))
+    chk.guard('asm-options', 'lidt / cs read', lambda: asm_not_pure(chk, chk.I, 'asm-options', ['src/instructions/tables.rs', 'src/instructions/segmentation.rs'], 20))
     chk.floor('obligations', len(chk.obs), 900)
 
 
